@@ -336,3 +336,33 @@ def selection(cx):
         fn.ob('NULLDEFAULT', 'threshold %s is derived from the range only when it is not given' % p, len(blk) == 1, blk[0] if blk else fn.ast,
               key='default-' + p)
     return fn
+
+
+def no_module_state(cx, modules=('mef',), extra=()):
+    """NOSTATE: the calibration depends on its arguments only.  No function of the calibration module
+    (or a listed callee) stores into, mutates or rebinds a module-level object: a later call can then not
+    see anything of an earlier one.  Decided by the may-alias effect analysis (flowlint/mut.py): every
+    store / in-place operation / mutator call whose receiver may be a module-level object is an event."""
+    from .. import mut
+    from ..core import norm_stmt
+    import ast
+    prog = mut.Program(cx.repo).solve()
+    n = 0
+    for q in sorted(prog.funcs):
+        if q.split('.')[0] not in modules and q not in extra:
+            continue
+        mod, f, cls = prog.funcs[q]
+        n += 1
+        cx.functions_analysed.add(q)
+        bad = [ev for ev in prog.events.get(q, []) if any(t.startswith('G:') for t in ev.tags)]
+        glob = [st for st in ast.walk(f) if isinstance(st, (ast.Global, ast.Nonlocal)) and isinstance(st, ast.Global)]
+        for ev in bad:
+            cx.ob('NOSTATE', 'no state is kept between calls (module-level objects are never written)', False, mod, ev.node, q,
+                  detail='%s changes module-level %s' % (ev.what, ', '.join(sorted(t[2:] for t in ev.tags if t.startswith('G:')))),
+                  key='state|' + norm_stmt(ev.node)[:100])
+        for st in glob:
+            cx.ob('NOSTATE', 'no state is kept between calls (module-level objects are never written)', False, mod, st, q,
+                  detail='`global %s` lets the function rebind module state' % ', '.join(st.names), key='global|' + ','.join(st.names))
+        if not bad and not glob:
+            cx.ob('NOSTATE', 'no state is kept between calls (module-level objects are never written)', True, mod, f, q, key='clean')
+    cx.floor('NOSTATE', n, 6, 'functions of the calibration module')
